@@ -1124,8 +1124,12 @@ func (db *DB) WriteDatabaseAt(ctx context.Context, f *os.File, data []byte, offs
 	// Track dirty pages if we are using a rollback journal. This isn't
 	// necessary with the write-ahead log (WAL) since pages are appended
 	// instead of overwritten. We can determine the dirty set at commit-time.
+	//
+	// A rollback journal transaction can also occur while the database is
+	// still marked as WAL: switching the journal mode away from WAL rewrites
+	// the header page through the journal after the WAL has been removed.
 	pgno := uint32(offset/int64(db.pageSize)) + 1
-	if db.Mode() == DBModeRollback {
+	if db.Mode() == DBModeRollback || db.InWriteTx() {
 		db.dirtyPageSet[pgno] = struct{}{}
 	}
 
